@@ -61,7 +61,7 @@ def run_c01(tier):
                 'both byte orders. A case = (type, value, byte order); non-trivial = distinct (type tree, value) whose encoding '
                 'contains at least one padding byte or a composite member; distinct counted by hash.')
     chk.lean = core.lean_obligations('C01', thorough=(tier == 'thorough'))
-    corpus = Corpus(chk, chk.scale(120, 1500), dict(n_decls=8))
+    corpus = Corpus(chk, chk.scale(120, 1500), dict(n_decls=8, shifts=True))
     try:
         check_statics(chk, corpus)
         cases = gen_cases(chk, corpus, chk.scale(4, 8))
@@ -122,7 +122,7 @@ def run_c19(tier):
                 'non-trivial = encoding has a multi-byte scalar and a padding byte. C++ half: encode<little>() / encode<big>() / encode() of '
                 'objects decoded by the generated C++ full codec (g++, ASan+UBSan) compared the same way.')
     chk.lean = core.lean_obligations('C19', thorough=(tier == 'thorough'))
-    corpus = Corpus(chk, chk.scale(120, 1500), dict(n_decls=8))
+    corpus = Corpus(chk, chk.scale(120, 1500), dict(n_decls=8, shifts=True))
     try:
         cases = gen_cases(chk, corpus, chk.scale(4, 8))
         reqs = corpus.deft_requests()
@@ -215,7 +215,7 @@ def run_c02(tier):
                 'encode output is decoded into a fresh message: consumed length, field-for-field value (attribute reads), '
                 're-encoding; non-trivial = value has an array, optional or union. Greedy tails not ending aligned are counted separately (documented exception).')
     chk.lean = core.lean_obligations('C02', thorough=(tier == 'thorough'))
-    corpus = Corpus(chk, chk.scale(120, 1500), dict(n_decls=8))
+    corpus = Corpus(chk, chk.scale(120, 1500), dict(n_decls=8, shifts=True))
     try:
         cases = gen_cases(chk, corpus, chk.scale(4, 8))
         reqs = corpus.deft_requests()
@@ -308,7 +308,7 @@ def run_c06(tier):
                 'result and the decode(encode()) fixpoint; the same bytes run through Py.decode of the Lean model. '
                 'non-trivial = distinct (type, bytes) that is not the untouched valid encoding.')
     chk.lean = core.lean_obligations('C06', thorough=(tier == 'thorough'))
-    corpus = Corpus(chk, chk.scale(60, 600), dict(n_decls=8))
+    corpus = Corpus(chk, chk.scale(60, 600), dict(n_decls=8, shifts=True))
     slow = 0.0
     try:
         reqs = corpus.deft_requests()
